@@ -10,3 +10,5 @@ import WowVerif.Props.C01
 #print axioms Wv.C01.readFile_spelling
 #print axioms Wv.C01.archive_roundtrip_spelling
 #print axioms Wv.C01.archive_absent
+#print axioms Wv.C01.bet_roundtrip
+#print axioms Wv.C01.bet_columns_independent
